@@ -225,7 +225,8 @@ def homogeneous_poisson_exp_interval(
         steps, refrac = int(steps), refrac / step_time
 
         # convert frequencies (in Hz) to expected time between spikes in dt
-        res = (1 / inputs) * (1000.0 / step_time)
+        # (adding zero turns a negative zero into a positive one: a zero rate of either sign means an infinite interval)
+        res = (1 / (inputs + 0.0)) * (1000.0 / step_time)
 
         # compensate scale parameter with refractory length
         if compensate:
@@ -327,7 +328,8 @@ def homogeneous_poisson_exp_interval_online(
         steps, refrac = int(steps), refrac / step_time
 
         # convert frequencies (in Hz) to expected time between spikes in #dt
-        inputs = (1 / inputs) * (1000.0 / step_time)
+        # (adding zero turns a negative zero into a positive one: a zero rate of either sign means an infinite interval)
+        inputs = (1 / (inputs + 0.0)) * (1000.0 / step_time)
 
         # compensate scale parameter with refractory length
         if compensate:
